@@ -22,11 +22,11 @@ def builds_needed(tier):
 
 # Own corpus re-run on other builds of the crate (mc/core.py: extra builds). Every observation is compared with the same model.
 def _vec(fname, kind):
-    return str(kind).startswith(("sha224", "sha256", "blake2"))
+    return fname != "shard_huge" and str(kind).startswith(("sha224", "sha256", "blake2"))
 
 
 def extra_builds(tier):
-    return [("relchk", None), ("sse41", _vec), ("avx", _vec), ("avx2", _vec)]
+    return [("relchk", None), ("sse41", _vec), ("avx", _vec), ("native", _vec)]
 
 
 
@@ -39,7 +39,23 @@ def validate_models(tier):
 
 
 def shards(tier):
-    return [("shard_kind", k) for k in KINDS]
+    return [("shard_huge", k) for k in ("sha1", "sha256", "sha512", "ripemd160")] + [("shard_kind", k) for k in KINDS]
+
+
+def shard_huge(kind, tier):
+    """one message of 2^29 bytes: the inner hash's bit length passes 2^32"""
+    import hmac as _hmac
+    ck = core.Checker(PROPERTY_ID)
+    n = 1 << 29
+    key = pat(5, 0, 7)
+    h = _hmac.new(key, digestmod=kind)
+    chunk = b"\xff" * (1 << 24)
+    for _ in range(n >> 24):
+        h.update(chunk)
+    cases = [(["mnew s0 hmac %s %s" % (kind, P(5, 0, 7)), "minput s0 %s" % P(1, 0, n), "mraw s0"], ["-", "-", obs_of(h.digest())], {"nt": True})]
+    ck.run(cases, nontrivial=_nt)
+    ck.stats.states = len(cases)
+    return ck.stats
 
 
 def _nt(ops, meta):
